@@ -97,8 +97,11 @@ func ciscoPlan(kind, prop string) RunFunc {
 					"tool reports no change but device differs from target: "+o.Unchanged)
 			}
 			if o.StateDiff != "" {
-				return fail("state-differs|"+diffKind(o.StateDiff),
-					"after executing the script: "+o.StateDiff)
+				k := "state-differs|" + diffKind(o.StateDiff)
+				if kind == "IOS" && hasRemarks(cs) {
+					k += "|acl-with-remarks"
+				}
+				return fail(k, "after executing the script: "+o.StateDiff)
 			}
 			if msg, p2 := c.Recompare(cs, o.Node.Conf, tp); msg != "" {
 				f := fail("recompare-nonempty|"+script2Kind(p2), msg)
@@ -197,4 +200,17 @@ func script2Kind(p Plan) string {
 		return "remark-move-only"
 	}
 	return "other:" + first
+}
+
+func hasRemarks(cs *CiscoCase) bool {
+	for _, c := range []*cisco.Conf{cs.A, cs.B} {
+		for _, a := range c.ACLs {
+			for _, e := range a.Entries {
+				if strings.HasPrefix(e.Text, "remark ") {
+					return true
+				}
+			}
+		}
+	}
+	return false
 }
